@@ -64,6 +64,44 @@ def r1(ctx):
     else:
         ctx.ok(rule, "asn_extensible_integer_to_rust", detail)
     ctx.floor(rule, len(built), "C15.R1.constructors")
+    # unsigned only below a non-negative lower bound: every path to a U64 construction takes the true edge of `min >= 0`
+    cmps = [c for c in F.comparisons(b, O) if c.switch_bb is not None and c.kind == "b" and c.boundary == 0 and c.rhs == "" and "min(" in c.lhs]
+    u64_blocks = set()
+    for bb, j, s in b.all_statements():
+        if s["k"] == "assign" and s["rv"]["k"] == "agg" and s["rv"].get("adt", "").endswith("RustType") and s["rv"].get("variant") == "U64":
+            rng = O.operand(s["rv"]["ops"][0], bb, j) if s["rv"]["ops"] else None
+            lo = rng[4][0][1] if rng is not None and rng[0] == "agg" and rng[4] else None
+            if lo is not None and lo[0] == "agg" and lo[3] == "None":
+                continue        # U64(None, ..): selected by the literal patterns None / Some(0), not by the guard
+            u64_blocks.add(bb)
+    u64_blocks = sorted(u64_blocks)
+    d2 = {"function": b.path, "lower_bound_tests": [c.raw for c in cmps], "u64_built_in_blocks": u64_blocks}
+    if not cmps:
+        ctx.fail(rule, "unsigned-needs-nonnegative-min", "no `min >= 0` test decides between U64 and I64", "%s:%d" % (b.file, b.line), d2)
+    elif u64_blocks:
+        c = cmps[0]
+        t = b.blocks[c.switch_bb]["term"]
+        tr, fl = t["otherwise"], t["targets"][0]
+        if c.nop in ("Lt", "Le"):
+            tr, fl = fl, tr
+        # reachability with the edge (test -> true successor) removed
+        seen, work = set(), [0]
+        while work:
+            x = work.pop()
+            if x in seen:
+                continue
+            seen.add(x)
+            for y in b.succ[x]:
+                if x == c.switch_bb and y == tr and tr != fl:
+                    continue
+                work.append(y)
+        leak = [x for x in u64_blocks if x in seen]
+        if leak:
+            ctx.fail(rule, "unsigned-needs-nonnegative-min", "RustType::U64 can be chosen on a path on which `%s` is false: an extensible "
+                                                             "INTEGER with a negative lower bound gets an unsigned type" % c.raw[-60:],
+                     c.loc, d2)
+        else:
+            ctx.ok(rule, "unsigned-needs-nonnegative-min", d2)
 
 
 def r2_r4(ctx):
